@@ -222,15 +222,17 @@ def run(tier):
                               data={"program": recs[k]["prog"], "specified": recs[k]["m"]})
     ev.set("over_refusals(spec accepts, tool refuses; not a violation)", over)
     # ---- scenarios x compressors x options -------------------------------------------------------------
-    scen = [(s, []) for s in gen.standard_scenarios(work, rng, bs=4096)] + boundary_scenarios(work, rng, tier)
+    # the standard scenarios are sized for 4 KiB blocks (multi-block files, holes, duplicates): pack them with
+    # that block size so the block path is exercised, and once more with the default size (everything a tail)
+    std = gen.standard_scenarios(work, rng, bs=4096)
+    scen = [(s, ["-b", "4096"]) for s in std] + [(s, []) for s in (std if tier != "quick" else std[:2])] + boundary_scenarios(work, rng, tier)
     comps = ["gzip", "xz", "lz4", "zstd", "lzma"]
     optsets = [[], ["-j", "3"], ["-T"], ["-e"], ["-b", "8192"], ["-b", "1048576"], ["-B", "65536"], ["-j", "1", "-Q", "1"]]
     jobs = []
     for si, (s, base) in enumerate(scen):
-        combos = [(comps[(si + k) % len(comps)], optsets[(si * 3 + k) % len(optsets)]) for k in range(2 if tier == "quick" else 5)]
+        usable = [o for o in optsets if not ("-b" in base and "-b" in o)]
+        combos = [(comps[(si + k) % len(comps)], usable[(si * 3 + k) % len(usable)]) for k in range(2 if tier == "quick" else 5)]
         for comp, opts in combos:
-            if "-b" in base and "-b" in opts:
-                continue
             jobs.append((s, base, comp, opts))
 
     def pack(job):
